@@ -143,7 +143,7 @@ def parse_embedded_scalar(scalar, version=LATEST_VER):
 
     # Is it a xstr?
     if scalar.startswith('x:'):
-        return XStr(*scalar[2:].split(':'))
+        return XStr(*scalar[2:].split(':', 1))
 
     # Is it a reference?
     match = REF_RE.match(scalar)
